@@ -355,12 +355,19 @@ class BodyAn:
             for s in blk.stmts:
                 if s.kind == 'assign':
                     kill = 0
+                    ma_before = ma
                     for op in s.rv.ops:
                         kill |= moved_locals_operand(op)
                     mu &= ~kill; ma &= ~kill
                     if s.place.is_local():
-                        if s.rv.kind == 'agg' and s.rv.j.get('ak') == 'adt' and s.rv.j.get('variant') == 'None' and s.rv.j.get('adt') == 'std::option::Option':
+                        if s.rv.kind == 'agg' and s.rv.j.get('ak') == 'adt' and ((s.rv.j.get('variant') == 'None' and s.rv.j.get('adt') == 'std::option::Option') or
+                                                                                   (s.rv.j.get('variant') == 'Ok' and s.rv.j.get('adt') == 'std::result::Result' and
+                                                                                    self.b.locals[s.place.local]['ty'].startswith('std::result::Result<(), '))):
                             # an empty Option holds nothing (same refinement as the None arm of a switch)
+                            mu &= ~(1 << s.place.local); ma &= ~(1 << s.place.local)
+                        elif s.rv.kind == 'use' and s.rv.ops[0].kind == 'move' and not s.rv.ops[0].place.proj and not ((ma_before >> s.rv.ops[0].place.local) & 1) \
+                                and self.b.locals[s.rv.ops[0].place.local]['ty'].startswith(('std::option::Option<', 'std::result::Result<(), ')):
+                            # .. and so does a copy of it (`_r = None; _x = move _r`, the return slot of an inlined helper)
                             mu &= ~(1 << s.place.local); ma &= ~(1 << s.place.local)
                         else:
                             mu |= 1 << s.place.local; ma |= 1 << s.place.local
@@ -390,6 +397,15 @@ class BodyAn:
                 mu &= ~kill; ma &= ~kill
                 for k, tgt in self.edges(bb):
                     outs[(k, tgt)] = (mu, ma)
+            elif t.kind == 'switch' and 'on' in t.j and not t.j['on']['pr'] and t.j.get('adt') == 'std::result::Result' and \
+                    self.b.locals[t.j['on']['l']]['ty'].startswith('std::result::Result<(), '):
+                # on the Ok arm of a match on a whole `Result<(), T>` the local owns nothing (`Ok(())`)
+                l = t.j['on']['l']
+                for lab, tgt in t.switch_arms():
+                    if lab == 'Ok':
+                        outs[('normal', tgt)] = (mu & ~(1 << l), ma & ~(1 << l))
+                    else:
+                        outs.setdefault(('normal', tgt), (mu, ma))
             elif t.kind == 'switch' and 'on' in t.j and not t.j['on']['pr'] and t.j.get('adt') == 'std::option::Option':
                 # on the None arm of a match on a whole local the local owns nothing
                 l = t.j['on']['l']
@@ -433,9 +449,18 @@ class BodyAn:
                 for op in s.rv.ops:
                     if op.kind == 'move' and '*' not in op.place.proj:
                         kill |= 1 << op.place.local
+                ma_before = ma
                 mu &= ~kill; ma &= ~kill
                 if s.place.is_local():
-                    mu |= 1 << s.place.local; ma |= 1 << s.place.local
+                    empty = (s.rv.kind == 'agg' and s.rv.j.get('ak') == 'adt' and ((s.rv.j.get('variant') == 'None' and s.rv.j.get('adt') == 'std::option::Option') or
+                                                                                     (s.rv.j.get('variant') == 'Ok' and s.rv.j.get('adt') == 'std::result::Result' and
+                                                                                      self.b.locals[s.place.local]['ty'].startswith('std::result::Result<(), ')))) or \
+                        (s.rv.kind == 'use' and s.rv.ops[0].kind == 'move' and not s.rv.ops[0].place.proj and not ((ma_before >> s.rv.ops[0].place.local) & 1)
+                         and self.b.locals[s.rv.ops[0].place.local]['ty'].startswith(('std::option::Option<', 'std::result::Result<(), ')))
+                    if empty:
+                        mu &= ~(1 << s.place.local); ma &= ~(1 << s.place.local)
+                    else:
+                        mu |= 1 << s.place.local; ma |= 1 << s.place.local
             elif s.kind == 'dead':
                 mu &= ~(1 << s.local); ma &= ~(1 << s.local)
         return mu, ma
